@@ -362,7 +362,9 @@ def _internal_large_cases(tier):
     import os
 
     seed = int(os.environ.get("VERIF_SEED", "1") or "1")
-    for n in ([70001] if tier == "quick" else [70001, 2**17 + 3001, 8193, 2**20 + 4097]):
+    from ..strategies import harvested_edge_sizes
+
+    for n in sorted(set([70001] if tier == "quick" else [70001, 2**17 + 3001, 8193, 2**20 + 4097]) | set(harvested_edge_sizes(["simulation/taus/taus.py", "utils/cdf.py", "utils/interp.py"], cap=2**21 + 1, lo=4000))):
         yield {"n": n, "version": str(1 + (seed + 1) % 3), "seed": seed}
 
 
